@@ -94,13 +94,41 @@ def run(v, tier):
     cls += [[rng.choice(clause_pool) for _ in range(rng.randrange(3, 6))] for _ in range(500 if quick else 8000)]
     cls += [[], [[-3, -1], [-1], [1]], [[2], [-1, 2], [1, -2], [-1]], [[-2, -1], [-2], [2]]]
     rres = lem.run_applications([{'cmd': 'resolve', 'clauses': c} for c in cls])
+    loops = []
     for c, r in zip(cls, rres):
+        if r.get('loop') and r['out'] == 'ok' and len(r['loop']['calls']) < 400:
+            loops.append(r['loop'])
         if 'RecursionError' in r['out']:
             continue
         cases.append({'fam': 'resolve', 'clauses': c, 'out': 'ok' if r['out'] == 'ok' else 'raise', 'exc': r['out'], 'res': r['res'], 'conc': r['conc']})
     deep = [c for c in cases if jdepth(c) > 200]
     cases = [c for c in cases if jdepth(c) <= 200]
     v.cov['cases_skipped_json_nesting_limit'] = len(deep)
+    # the saturation loop as a state machine (spec/Resolution.tla): (A) sound + complete on all small clause lists,
+    # (C) the recorded sequence of resolvable() calls of the implementation is the sequence the machine visits
+    RCFG = 'SPECIFICATION Spec\nCONSTANTS\n Lits <- Lits3\n MaxClauses = %d\n MaxLen = 2\n Clobber = FALSE\n Mode = "%s"\n%sCHECK_DEADLOCK FALSE\n'
+    wd = pi2v.workdir('c09-resolution-model')
+    res0 = pi2v.run_tlc('Resolution', RCFG % (3, 'model', 'INVARIANT Sound\nINVARIANT Complete\n'), wd, workers=8)
+    if res0.invariant_violated:
+        raise pi2v.MachineryError(f'spec/Resolution.tla violates {res0.invariant_violated}')
+    pi2v.tlc_must_be_clean(res0, 'c09-resolution-model')
+    v.add_tlc(res0)
+    wd = pi2v.workdir('c09-resolution-trace')
+    import os
+    path = os.path.join(wd, 'loops.ndjson')
+    pi2v.write_ndjson(path, loops)
+    res1 = pi2v.run_tlc('Resolution', RCFG % (1, 'trace', ''), wd, env={'CASES': path}, workers=8)
+    pi2v.tlc_must_be_clean(res1, 'c09-resolution-trace')
+    if len(res1.dones) != len(loops):
+        raise pi2v.MachineryError(f'c09-resolution-trace: {len(res1.dones)} of {len(loops)} loop traces finished')
+    v.add_tlc(res1)
+    v.cov['resolution_loop_traces'] = len(loops)
+    v.cov['traces_validated_against_impl'] += len(loops)
+    pi2v.log(f'[C09] resolution loop: model {res0.distinct} states; {len(loops)} loop traces validated, {len(res1.fails)} FAIL')
+    for f in res1.fails:
+        lp = loops[f[1] - 1]
+        v.fail(f"loop-{f[3]}:{lp['clauses']}", f"saturation loop on {lp['clauses']}: the implementation's {f[2]}-th resolvable() call / verdict is not what the Resolution state machine does (clause {f[3]})",
+               {'family': 'taut', 'case': lp})
     v.cov['formulas'] = len(fs)
     v.cov['formulas_skipped_python_recursion_limit'] = exhausted
     v.cov['clause_lists'] = len(cls)
